@@ -10,5 +10,5 @@ CONSTANTS
  SCoins = {}
  Tamper = FALSE
  PowM <- TabPowM
-INVARIANTS SlotTheorem
+INVARIANTS SlotTheoremFew
 CHECK_DEADLOCK FALSE
